@@ -17,14 +17,16 @@ import (
 // C18 — barycentric evaluation and in-domain division are exact polynomial operations.
 
 type c18Case struct {
-	Poly polySpec `json:"poly"`
-	Mode string   `json:"mode"`        // divide | evaluate
-	K    int      `json:"k,omitempty"` // domain index for divide
-	Z    string   `json:"z,omitempty"` // out-of-domain point (hex) for evaluate
+	Poly  polySpec `json:"poly"`
+	Mode  string   `json:"mode"`        // divide | evaluate
+	K     int      `json:"k,omitempty"` // domain index for divide
+	Z     string   `json:"z,omitempty"` // out-of-domain point (hex) for evaluate
+	Noise uint64   `json:"noise,omitempty"`
 }
 
 func genC18(t *rapid.T) c18Case {
-	c := c18Case{Poly: genPoly(t, "p"), Mode: rapid.SampledFrom([]string{"divide", "divide", "evaluate"}).Draw(t, "mode")}
+	c := c18Case{Poly: genPoly(t, "p"), Mode: rapid.SampledFrom([]string{"divide", "divide", "evaluate"}).Draw(t, "mode"),
+		Noise: noiseSeedFrom(rapid.Uint64().Draw(t, "noise"))}
 	if rapid.IntRange(0, 3).Draw(t, "monomial") == 0 {
 		c.Poly = polySpec{Kind: "monomial255"}
 	}
@@ -125,6 +127,7 @@ func checkEvaluate(p polySpec, f []*big.Int, co []*big.Int, z *big.Int) error {
 func evalC18(c c18Case, rec *hx.Rec) error {
 	rec.Eval(1)
 	rec.Sample(c)
+	runNoise(c.Noise, 2, true)
 	f := c18Evals(c.Poly)
 	co := c18Coeffs(c.Poly, f)
 	rec.Label("mode="+c.Mode, "poly="+c.Poly.Kind)
